@@ -115,4 +115,19 @@ theorem shape_defaultInitiateAuthentication_ok : Oidc.Shapes.Shape_defaultInitia
 /-! further obligations against the regenerated program text (`Oidc/Shapes.lean`): constructor wiring and URL builders -/
 theorem text_TraefikOidc_buildAuthURL_ok : Oidc.Shapes.Text_TraefikOidc_buildAuthURL := by unfold Oidc.Shapes.Text_TraefikOidc_buildAuthURL; rfl
 
+
+/-! ## Program text of the helpers these theorems also rest on (constructors, accessors, token endpoint, configuration) -/
+theorem text_SessionData_GetCSRF_ok : Oidc.Shapes.Text_SessionData_GetCSRF := by unfold Oidc.Shapes.Text_SessionData_GetCSRF; rfl
+theorem text_SessionData_SetCSRF_ok : Oidc.Shapes.Text_SessionData_SetCSRF := by unfold Oidc.Shapes.Text_SessionData_SetCSRF; rfl
+theorem text_SessionData_GetNonce_ok : Oidc.Shapes.Text_SessionData_GetNonce := by unfold Oidc.Shapes.Text_SessionData_GetNonce; rfl
+theorem text_SessionData_SetNonce_ok : Oidc.Shapes.Text_SessionData_SetNonce := by unfold Oidc.Shapes.Text_SessionData_SetNonce; rfl
+theorem text_SessionData_GetCodeVerifier_ok : Oidc.Shapes.Text_SessionData_GetCodeVerifier := by unfold Oidc.Shapes.Text_SessionData_GetCodeVerifier; rfl
+theorem text_SessionData_SetCodeVerifier_ok : Oidc.Shapes.Text_SessionData_SetCodeVerifier := by unfold Oidc.Shapes.Text_SessionData_SetCodeVerifier; rfl
+theorem text_deriveCodeChallenge_ok : Oidc.Shapes.Text_deriveCodeChallenge := by unfold Oidc.Shapes.Text_deriveCodeChallenge; rfl
+theorem text_generateCodeVerifier_ok : Oidc.Shapes.Text_generateCodeVerifier := by unfold Oidc.Shapes.Text_generateCodeVerifier; rfl
+theorem text_generateNonce_ok : Oidc.Shapes.Text_generateNonce := by unfold Oidc.Shapes.Text_generateNonce; rfl
+theorem text_TraefikOidc_ExchangeCodeForToken_ok : Oidc.Shapes.Text_TraefikOidc_ExchangeCodeForToken := by unfold Oidc.Shapes.Text_TraefikOidc_ExchangeCodeForToken; rfl
+theorem text_TraefikOidc_exchangeCodeForToken_ok : Oidc.Shapes.Text_TraefikOidc_exchangeCodeForToken := by unfold Oidc.Shapes.Text_TraefikOidc_exchangeCodeForToken; rfl
+theorem text_TraefikOidc_exchangeTokens_ok : Oidc.Shapes.Text_TraefikOidc_exchangeTokens := by unfold Oidc.Shapes.Text_TraefikOidc_exchangeTokens; rfl
+
 end Oidc.Props.C03
